@@ -148,7 +148,7 @@ func C06(c *Ctx, r *report.Run) error {
 	r.Rule = "for every RPC of every unit (core REST/query/header units and every codec unit) every enumerated request value is sent by the generated Go client and every enumerated response value is returned by the generated Go server (JSON transport, byte-level wire); each captured request body, 200 body, 400 ValidationError body and default Error body is validated with python jsonschema (Draft 2020-12) against the schema the service's OpenAPI document gives for that operation, plainly and under the strict transform (no property the schema does not describe, at any depth); every path, query and header value sent is validated against its parameter schema after typed coercion; every reachable component schema must accept the documented form of the type's default and fully populated value; distinct = (unit, rpc, kind, outcome)"
 	var specs []*spec.Spec
 	for _, s := range serviceSpecs(c) {
-		if !hasTag(s, "ctx") && !hasTag(s, "rules") && !hasTag(s, "route") {
+		if !hasTag(s, "ctx") && !hasTag(s, "rules") && !hasTag(s, "route") && !hasTag(s, "serveronly") {
 			specs = append(specs, s)
 		}
 	}
